@@ -125,6 +125,21 @@ def build(cfg):
             reg = csr.Register(fields, access=cfg["access"])
     except (ValueError, TypeError) as e:
         return None, e, order
+    # Other registers of the same class are built between this one's construction and its elaboration - with the same field
+    # names but other widths, and one that the constructor refuses: instances must not share layout state.
+    if cfg.get("decoys", True):
+        def decoy(tree, shift):
+            if tree[0] == "F":
+                shapes = sorted(SHAPES)
+                return csr.Field(Probe, SHAPES[shapes[(shapes.index(tree[1]) + shift) % len(shapes)]][0], tree[2], -1)
+            if tree[0] == "D":
+                return {k: decoy(sub, shift) for k, sub in tree[1]}
+            return [decoy(sub, shift) for sub in tree[1]]
+        for shift, access in ((1, cfg["access"]), (2, cfg["access"]), (1, "r" if cfg["access"] != "r" else "w")):
+            try:
+                csr.Register(decoy(cfg["tree"], shift), access=access)
+            except (ValueError, TypeError):
+                pass
     return reg, None, order
 
 
